@@ -60,17 +60,19 @@ func c19ConcRun(c c19Case) harn.Result {
 		}
 	}
 	got := make([]string, len(cc.Srcs))
+	held := make([]error, len(cc.Srcs)) // the error OBJECTS, rendered again after every VM has finished
 	mk := func() []func() {
 		var bodies []func()
 		for i := range cc.Srcs {
 			i := i
-			got[i] = ""
+			got[i], held[i] = "", nil
 			bodies = append(bodies, func() {
 				cfg := drv.AllOn()
 				cfg.Lang = cc.Langs[i]
 				vm := drv.NewVM(cfg)
 				if err := vm.Parse(cc.Srcs[i]); err != nil {
 					got[i] = err.Error()
+					held[i] = err
 				}
 			})
 		}
@@ -91,6 +93,9 @@ func c19ConcRun(c c19Case) harn.Result {
 			return
 		}
 		for i := range got {
+			if held[i] != nil && held[i].Error() != iso[i] && got[i] == iso[i] {
+				got[i] = held[i].Error() + "   [rendered again after the other VMs had finished]"
+			}
 			if got[i] != iso[i] {
 				reported = true
 				res.Violations = append(res.Violations, harn.Violation{
